@@ -126,7 +126,7 @@ def gen_stall(rng):
     g = Scn(rng)
     g.head.append(f"cfg seed={rng.randrange(1, 1 << 30)} stay={rng.choice([5, 10, 10, 20, 30])} waitlimit=800 cblimit=4000 steplimit=400000")
     m0, m1 = rng.choice([1, 2, 3]), rng.choice([1, 1, 2, 3])
-    hooks = " hooks" if rng.random() < 0.4 else ""
+    hooks = rng.choice([" hooks", " hooks", " hooks-stop", " hooks-start"]) if rng.random() < 0.5 else ""
     g.sec[0].append(f"obj pool p0 max={m0}")
     g.sec[0].append(f"obj pool p1 max={m1}{hooks}")
     warm = [g.item(0) for _ in range(rng.choice([1, 1, 2]))]
@@ -178,7 +178,7 @@ def gen_scenario(rng, family):
             maxes[p] = rng.choice([1, 1, 2])
         else:
             maxes[p] = rng.choice([1, 2, 3, 4])
-        hooks = " hooks" if rng.random() < 0.6 else ""
+        hooks = rng.choice([" hooks", " hooks", " hooks", " hooks-stop", " hooks-start"]) if rng.random() < 0.6 else ""
         g.sec[owner].append(f"obj pool {p} max={maxes[p]}{hooks}")
     if owner == 1:
         # the main thread does something unrelated: its own NULL-pool items and a timer
@@ -403,7 +403,7 @@ def gen_failgrow(rng):
     mx = rng.choice([2, 2, 3])
     nx = rng.choice([2, 3, 4])
     L = [f"cfg seed={rng.randrange(1, 10**6)} stay={rng.choice([30, 55, 80])} failcreate={rng.choice([2, 2, 3])}", "thread 0",
-         f"obj pool p0 max={mx}" + (" hooks" if rng.random() < 0.5 else "")]
+         f"obj pool p0 max={mx}" + (rng.choice([" hooks", " hooks", " hooks-stop"]) if rng.random() < 0.5 else "")]
     L += [f"obj work x{i}" for i in range(nx)] + ["obj timer t0", "obj timer t1"]
     subs = [f"submit p0 x{i}" for i in range(nx)]
     cut = rng.randrange(1, nx + 1)
@@ -466,7 +466,7 @@ def oracle(log, scenario=(), want=("C12", "C13")):
         elif k == "API" and w[1] == "poolcreate":
             pool_owner[w[2]] = t
             pool_max[w[2]] = int(w[3].split("=")[1])
-            pool_hooks[w[2]] = w[4] == "hooks=1"
+            pool_hooks[w[2]] = {"hooks=1": "both", "hooks=start": "start", "hooks=stop": "stop"}.get(w[4])
             running[w[2]] = 0
         elif k == "API" and w[1] in ("submit", "submitc"):
             p, x = w[2], w[3]
@@ -567,7 +567,7 @@ def oracle(log, scenario=(), want=("C12", "C13")):
                     bad("hook:start-twice", f"line {n}: thread_start called twice in worker T{t}")
             else:
                 h[1] += 1
-                if h[1] > h[0]:
+                if h[1] > h[0] and pool_hooks.get(worker_pool.get(t)) != "stop":
                     bad("hook:stop-before-start", f"line {n}: thread_stop without thread_start in worker T{t}")
                 if h[1] > 1:
                     bad("hook:stop-twice", f"line {n}: thread_stop called twice in worker T{t}")
@@ -592,7 +592,7 @@ def oracle(log, scenario=(), want=("C12", "C13")):
                     bad("work:in-owner", f"line {n}: work function of {x} ran in the owner thread")
                 if worker_pool.get(t) != p:
                     bad("work:not-a-worker", f"line {n}: work function of {x} ran in T{t}, not a worker of {p}")
-                if pool_hooks.get(p) and hook.get(t, [0, 0])[0] != 1:
+                if pool_hooks.get(p) in ("both", "start") and hook.get(t, [0, 0])[0] != 1:
                     bad("hook:work-before-start", f"line {n}: work function ran in T{t} before thread_start")
                 if hook.get(t, [0, 0])[1] != 0:
                     bad("hook:work-after-stop", f"line {n}: work function ran in T{t} after thread_stop")
@@ -622,8 +622,10 @@ def oracle(log, scenario=(), want=("C12", "C13")):
         elif k == "THREAD-EXIT":
             exited.add(t)
             if t in worker_pool and pool_hooks.get(worker_pool[t]):
-                if hook.get(t, [0, 0]) != [1, 1]:
-                    bad("hook:exit-unpaired", f"line {n}: worker T{t} exited with thread_start/thread_stop counts {hook.get(t)}")
+                want = {"both": [1, 1], "start": [1, 0], "stop": [0, 1]}[pool_hooks[worker_pool[t]]]
+                if hook.get(t, [0, 0]) != want:
+                    bad("hook:exit-unpaired", f"line {n}: worker T{t} exited with thread_start/thread_stop counts {hook.get(t, [0, 0])}, the pool's hooks "
+                                              f"({pool_hooks[worker_pool[t]]}) require {want}: every started worker calls each hook that is set exactly once")
         elif k == "THREAD-JOIN":
             joined.add(int(w[1][1:]))
         elif k == "THREAD-DETACH":
